@@ -147,3 +147,28 @@ Proof.
   intros Hs Hi Hm Hf. unfold go_lookup. rewrite Hi, andb_false_r. cbn [s_bfs s_level vmem existsb b_id]. rewrite Hm, Hs, Hf.
   cbn [s_level lvl_add b_mult b_ind andb]. reflexivity.
 Qed.
+
+(* a method declared directly on the operand's named type wins in both procedures, for value and
+   pointer operands alike (a promoted member of the same name never shadows it) *)
+Lemma gg_direct_method e name id i :
+  d_iface (getd e id) = false ->
+  find_method name 0 (d_methods (getd e id)) = Some i ->
+  (d_struct (getd e id) = true -> find_field name 0 (d_fields (getd e id)) = None) ->
+  forall p, gg_member e name id p = Found false id i.
+Proof.
+  intros Hi Hm Hf p. unfold gg_member. cbn [gg_find]. rewrite Hi, Hm.
+  destruct (d_struct (getd e id)) eqn:Es; [rewrite (Hf eq_refl)|]; destruct p; reflexivity.
+Qed.
+
+Lemma go_direct_method e name nx id i p a :
+  d_iface (getd e id) = false ->
+  s_find_method name nx 0 (d_methods (getd e id)) = Some i ->
+  (m_ptr (nth i (d_methods (getd e id)) (mkMethod 0 true 0 false)) = false \/ p = true \/ a = true) ->
+  go_lookup e name nx id p a = Found false id i.
+Proof.
+  intros Hi Hm Hr. unfold go_lookup. rewrite Hi, andb_false_r.
+  cbn [s_bfs s_level vmem existsb b_id]. rewrite Hm, Hi.
+  cbn [s_level lvl_add b_mult b_ind].
+  destruct Hr as [-> | [-> | ->]]; cbn [andb negb]; try reflexivity;
+    rewrite ?andb_false_r; reflexivity.
+Qed.
